@@ -289,13 +289,13 @@ class BoundedGaussian(Gaussian):
             return super().prob(p)
 
     def sample(self, size=None):
-        val = super().sample(size)
+        val = np.atleast_1d(super().sample(size))
         out = True
         while np.any(out):
             out = np.logical_or(val < self.lower_bound, val > self.upper_bound)
             out = np.where(out)
             val[out] = super().sample(len(out[0]))
-        return val
+        return val if size is not None else val[0]
 
 
 class TransformedPrior(Prior):
